@@ -299,3 +299,87 @@ def gen_c13(tier, R):
             out.append(bi(1, "min", [a]))
             out.append(bi(1, "max", els) if els else bi(1, "max", []))
     return out
+
+
+# ---------------- C09 ----------------
+C09_EXTRA = [num(x) for x in [2.0**31, 2.0**32, -2.0**63, 9.5e7, -9.5e7, 95026601.0, -95745048.0, 2932896.0, -719162.0, 3000000.0, -800000.0, 19000.5, 1e-300, 262143.0 * 366, 0.99999999999]] + \
+            [s(t) for t in ["%Q", "%", "%Y-%m-%d", "%H:%M:%S", "%+", "%s", "%Z", "%:::z", "%-", "%9f", "%.3f", "%E", "(", "[", "(a*)*b", "a{1000}", "a{1000000}", "(?P<n>x)", "\\", "\\p{Greek}", "(?i)Ab", "$1", "${x", "x|",
+                            "2024-02-30", "0000-00-00", "9999-12-31 23:59:60", "24:00:00", "Sun, 03 Mar 2024 10:00:00 +0000", "2024-03-03T10:00:00+00:00", "a\x00b", "\U0010ffff", "𝒳"]] + \
+            [arr(*[num(float(i % 7)) for i in range(200)]), arr(*([s("9"), num(9.0), s("10")] * 70)), arr(*[num(NAN) if i % 3 == 0 else num(float(i)) for i in range(60)]),
+             arr(arr(arr(arr(arr(num(1.0)))))), arr(*[s("x" * 50)] * 30)]
+C09_POOL = POOL + C09_EXTRA
+
+
+def script_of(name, args):
+    """render a call as source text where the arguments are expressible (non-negative finite numbers, strings, booleans, arrays of those)"""
+    import struct as _st
+
+    def lit(a):
+        if a.startswith('(n '):
+            x = _st.unpack('<d', _st.pack('<Q', int(a[3:-1])))[0]
+            if x != x:
+                return '(0/0)'
+            if x in (INF, -INF):
+                return '(1/0)' if x > 0 else '(-1/0)'
+            t = format(__import__('decimal').Decimal(abs(x)), 'f')
+            return t if x >= 0 and not (x == 0 and _st.pack('<d', x)[7] & 0x80) else '(-' + t + ')'
+        if a.startswith('(s'):
+            t = ''.join(chr(int(c)) for c in a[2:-1].split())
+            return "'" + t.replace("'", "''") + "'"
+        if a.startswith('(b '):
+            return 'true' if a == '(b 1)' else 'false'
+        return None
+    parts = [lit(a) for a in args]
+    if any(p is None for p in parts):
+        return None
+    return f"{name}({', '.join(parts)})"
+
+
+def gen_c09(tier, R, off):
+    names = registered_names()
+    out = []
+    pool = C09_POOL
+    small = POOL[::5] + C09_EXTRA[::2]
+    for n in names:
+        if n in ('random', 'choice') and False:
+            continue
+        out.append(bi(off, n, []))
+        for a in pool:
+            out.append(bi(off, n, [a]))
+        p2 = pool if tier == 'thorough' else small
+        for a in p2:
+            for c in p2:
+                out.append(bi(off, n, [a, c]))
+        for _ in range(200 if tier == 'quick' else 20000):
+            out.append(bi(off, n, [R.choice(pool) for _ in range(R.choice([3, 3, 3, 4, 5]))]))
+    # through scripts
+    for _ in range(4000 if tier == 'quick' else 200000):
+        n = R.choice(names)
+        args = [R.choice(pool) for _ in range(R.choice([0, 1, 1, 2, 2, 3, 4]))]
+        sc = script_of(n, args)
+        if sc is not None:
+            out.append("(script _ " + " ".join(str(ord(c)) for c in sc) + ")")
+    return out
+
+
+# ---------------- C14 ----------------
+def gen_c14(tier, R):
+    names = [n for n in registered_names() if n not in ('random', 'choice')]
+    eqpool = [num(1.0), s("1"), s("1.0"), b(True), num(0.0), s("0"), b(False), s(""), num(-0.0), s("-0"), num(2.0), s("2"), s("a"), arr(), arr(num(1.0)), arr(s("1"))]
+    arrays = []
+    for _ in range(400 if tier == 'quick' else 20000):
+        arrays.append(arr(*[R.choice(eqpool) for _ in range(R.randint(0, 9))]))
+    out = []
+    for a in arrays:
+        for n in ("unique", "sort", "reverse", "count", "contains", "find", "max", "min", "all", "any", "length", "str", "remove"):
+            if n in ("count", "contains", "find", "remove"):
+                out.append(bi(1, n, [a, R.choice(eqpool)]))
+            else:
+                out.append(bi(1, n, [a]))
+    for n in names:
+        out.append(bi(1, n, []))
+        for a in POOL[::2]:
+            out.append(bi(1, n, [a]))
+        for _ in range(40 if tier == 'quick' else 2000):
+            out.append(bi(1, n, [R.choice(POOL) for _ in range(R.choice([2, 2, 3]))]))
+    return out
